@@ -317,6 +317,17 @@ func runC06(c *Ctx) *Replay {
 	c.Count("values", 1)
 	cuts := cutPoints(c.R, len(data), spans, 1200)
 	chunked := drawSchedule(c.R, len(data), spans)
+	// a third of the values of an evolved program are read by the older schema: a prefix of
+	// the newer encoding is cut short for that reader too (the length prefixes cover the
+	// fields it skips)
+	oldPeer, peerMask := false, -1
+	if obs := c.N.OldOf[b.Prog.ID]; len(obs) > 0 && c.R.Chance(1, 3) {
+		ob := obs[c.R.Intn(len(obs))]
+		if ob.Types[pk.Type] != nil {
+			oldPeer, peerMask = true, ob.Mask
+			c.Count("old_reader_values", 1)
+		}
+	}
 	reader := readerKinds[c.R.Intn(len(readerKinds))]
 	errName := []string{"eof", "eof", "unexpected-eof"}[c.R.Intn(3)]
 	for _, k := range cuts {
@@ -325,7 +336,7 @@ func runC06(c *Ctx) *Replay {
 			if vi == 3 && k%7 != 0 {
 				continue
 			}
-			sc := Scenario{Kind: "truncate", Prog: b.Prog.ID, Mask: b.Mask, PeerMask: -1, Type: pk.Type, Value: &v, Cut: k, Decoder: variant}
+			sc := Scenario{Kind: "truncate", Prog: b.Prog.ID, Mask: b.Mask, PeerMask: peerMask, OldPeer: oldPeer, Type: pk.Type, Value: &v, Cut: k, Decoder: variant}
 			switch variant {
 			case "decode":
 				sc.Sched = &simnet.Schedule{Name: "all"}
@@ -377,15 +388,20 @@ func execTruncate(n *Node, sc *Scenario) *Violation {
 	}
 	ek := elemKindAt(spans, k)
 	kind := recordKind(b.Schema, sc.Type)
+	rb := n.receiver(sc)
+	if rb == nil {
+		note(sc, "skipped", "receiver build absent")
+		return nil
+	}
 	var do decOut
 	if isStreamDecoder(sc.Decoder) {
 		rf := &simnet.ReadFault{At: k, Err: "eof"}
 		if sc.RFault != nil {
 			rf = &simnet.ReadFault{At: k, Err: sc.RFault.Err, Partial: sc.RFault.Partial}
 		}
-		do = n.decode(b, sc.Type, sc.Decoder, data, sc.Sched, rf, sc.Reader, len(data))
+		do = n.decode(rb, sc.Type, sc.Decoder, data, sc.Sched, rf, sc.Reader, len(data))
 	} else {
-		do = n.decode(b, sc.Type, sc.Decoder, data[:k], nil, nil, "", len(data))
+		do = n.decode(rb, sc.Type, sc.Decoder, data[:k], nil, nil, "", len(data))
 	}
 	if do.NoSuch {
 		note(sc, "skipped", "decoder not generated")
@@ -399,7 +415,7 @@ func execTruncate(n *Node, sc *Scenario) *Violation {
 	if do.Err == nil {
 		return &Violation{Class: "nil-error", Signature: "nil-error|truncate|" + sc.Decoder + "|" + kind + "|" + ek, Elem: ek,
 			Detail: fmt.Sprintf("%s of the first %d of %d bytes of a valid %s encoding returned nil", sc.Decoder, k, len(data), sc.Type),
-			Facts:  map[string]string{"op": sc.Decoder, "record_kind": kind, "elem": ek}}
+			Facts:  map[string]string{"op": sc.Decoder, "record_kind": kind, "elem": ek, "old_reader": fmt.Sprint(sc.OldPeer)}}
 	}
 	return nil
 }
@@ -626,7 +642,10 @@ func execRFault(n *Node, sc *Scenario) *Violation {
 		v.Facts["fired"] = sc.Extra["fired"]
 		return v
 	}
-	if do.Link != nil && do.Link.ErrReturned && do.Err == nil {
+	// a clean io.EOF before the last byte of the record is a failure of the reader like any
+	// other: the stream ended inside the record
+	eofInside := do.Link != nil && do.Link.FaultFired && rf.Err == "eof" && do.Link.EOFReturned
+	if do.Link != nil && (do.Link.ErrReturned || eofInside) && do.Err == nil {
 		mode := "permanent"
 		if rf.Transient {
 			mode = "transient"
